@@ -479,6 +479,8 @@ func (r *runState) step(i int, op *Op, fc slip10.Curve, mc *ref.SlipCurve) {
 		hard     bool
 		stalled  string
 		panicked string
+		// inputChanged: what the call did to the caller's seed / path buffer (contents, or the spare capacity behind them)
+		inputChanged string
 	)
 	call := func(f func()) {
 		defer func() {
@@ -537,10 +539,11 @@ func (r *runState) step(i int, op *Op, fc slip10.Curve, mc *ref.SlipCurve) {
 		seed, _ := hex.DecodeString(op.SeedHex)
 		model, kind = ref.Master(mc, seed, mf)
 		// the seed (and below, the path) belongs to the caller, who reuses the buffer as soon as the call has returned
-		mine := append([]byte{}, seed...)
+		mine, seedIntact := lend(seed, i)
 		w.specCalls, w.extraSteps = mf.Calls(), 0
 		call(func() { real, err = slip10.NewMasterKey(mine, fc) })
-		scramble(mine)
+		inputChanged = seedIntact()
+		scramble(mine[:cap(mine)])
 	case "path":
 		api = "DeriveKeyFromPath"
 		seed, _ := hex.DecodeString(op.SeedHex)
@@ -552,16 +555,29 @@ func (r *runState) step(i int, op *Op, fc slip10.Curve, mc *ref.SlipCurve) {
 			parent, hard = "private", ix >= 1<<31
 			model, kind = model.Child(ix, mf)
 		}
-		mine, minePath := append([]byte{}, seed...), append([]uint32{}, op.Path...)
+		mine, seedIntact := lend(seed, i)
+		pathBuf := make([]uint32, len(op.Path)+(i*7)%5)
+		for j := range pathBuf {
+			pathBuf[j] = 0xa5a5a5a5 + uint32(j)
+		}
+		minePath := pathBuf[:copy(pathBuf, op.Path)]
 		w.specCalls, w.extraSteps = mf.Calls(), 0
 		if kind != ref.OK && kind != ref.ErrPermanent {
 			w.extraSteps = len(op.Path) + 1
 		}
 		call(func() { real, err = slip10.DeriveKeyFromPath(mine, fc, minePath) })
-		scramble(mine)
-		for j := range minePath {
-			minePath[j] = ^minePath[j]
+		inputChanged = seedIntact()
+		for j := range pathBuf {
+			want := 0xa5a5a5a5 + uint32(j)
+			if j < len(op.Path) {
+				want = op.Path[j]
+			}
+			if pathBuf[j] != want && inputChanged == "" {
+				inputChanged = fmt.Sprintf("entry %d of the caller's path buffer (length %d, capacity %d) was changed from %#x to %#x", j, len(op.Path), len(pathBuf), want, pathBuf[j])
+			}
+			pathBuf[j] = ^pathBuf[j]
 		}
+		scramble(mine[:cap(mine)])
 		if len(op.Path) > 200 {
 			r.res.Probes["path_deeper_than_255"] = 1
 		}
@@ -674,6 +690,10 @@ func (r *runState) step(i int, op *Op, fc slip10.Curve, mc *ref.SlipCurve) {
 	where := fmt.Sprintf("op %d %s on %s (reject %d/1000)", i, desc, r.cfg.Curve, r.cfg.RejectPerMille)
 	r.mix(fmt.Sprintf("%s/%d/%d/%d;", op.Kind, kind, w.rejects, op.PermAt))
 
+	if inputChanged != "" && panicked == "" && stalled == "" {
+		r.violate("caller-input-modified", where+": "+inputChanged+" - the seed and the path are the caller's, handed over to be read", sig)
+		return
+	}
 	switch {
 	case panicked != "":
 		first := panicked
@@ -783,6 +803,30 @@ func (r *runState) step(i int, op *Op, fc slip10.Curve, mc *ref.SlipCurve) {
 			r.violate("model-divergence:receiver-mutated", fmt.Sprintf("%s: extended key #%d changed (now %s, specification %s)", where, j, describeReal(h.real), describeModel(h.model)), sig)
 			return
 		}
+	}
+}
+
+// lend gives the package the caller's seed the way callers hold seeds: as the first len(seed) bytes of a larger buffer
+// now and then (a 64-byte BIP-39 seed of which 16..32 bytes are used, a field of a record), i.e. with spare capacity
+// behind it. intact reports what the call changed in that buffer - the seed itself or the bytes behind it.
+func lend(seed []byte, salt int) (mine []byte, intact func() string) {
+	spare := [...]int{0, 0, 64, 1, 32, 100, 0, 64 - len(seed)%64}[(salt+len(seed))%8]
+	buf := make([]byte, len(seed)+spare)
+	copy(buf, seed)
+	for j := len(seed); j < len(buf); j++ {
+		buf[j] = 0xc3 ^ byte(j)
+	}
+	return buf[:len(seed)], func() string {
+		for j := range buf {
+			want := 0xc3 ^ byte(j)
+			if j < len(seed) {
+				want = seed[j]
+			}
+			if buf[j] != want {
+				return fmt.Sprintf("byte %d of the caller's seed buffer (length %d, capacity %d) was changed from %#02x to %#02x", j, len(seed), len(buf), want, buf[j])
+			}
+		}
+		return ""
 	}
 }
 
